@@ -26,7 +26,25 @@ func (s pendingTimeout) Timeout(session *session, event internal.Event) (nextSta
 	case internal.PeerTimeout:
 		session.log.OnEvent("Session Timeout")
 		return latentState{}
+	case internal.NeedHeartbeat:
+		// No heartbeat goes out while the test request is outstanding, and the timer is not
+		// re-armed by a send: remember that a heartbeat is due.
+		session.heartbeatDue = true
 	}
 
 	return s
+}
+
+// FixMsgIn lets the wrapped state process the message (which cancels the pending disconnect) and
+// then sends the heartbeat that came due while the test request was outstanding, so that the
+// heartbeat timer is running again.
+func (s pendingTimeout) FixMsgIn(session *session, msg *Message) (nextState sessionState) {
+	nextState = s.sessionState.FixMsgIn(session, msg)
+	if session.heartbeatDue {
+		session.heartbeatDue = false
+		if nextState.IsLoggedOn() {
+			nextState = nextState.Timeout(session, internal.NeedHeartbeat)
+		}
+	}
+	return
 }
